@@ -71,7 +71,7 @@ def random_histories(c, n, length):
                 ops.append({"op": "listnew", "t": sl_t, "o": "-", "d": "-"})
                 have_sl, sl_n = True, 0
             elif k < 0.85 and have_sl:
-                ops.append({"op": c.rng.choice(["listappend", "listappend", "listappend", "listremove", "listquery"]), "t": "-", "o": o,
+                ops.append({"op": c.rng.choice(["listappend", "listappend", "listappend", "listremove", "listquery", "listquerydb"]), "t": "-", "o": o,
                             "d": c.rng.choice(data[sl_t])})
                 sl_n += 1
             elif k < 0.92 and have_sl and sl_n > 0:
